@@ -462,7 +462,7 @@ def _name_obligation(unit_name, kind, d, asm):
             if props is None:
                 props = L.props
             if L.kind == 'gen':
-                kind = 'panic-frame'
+                kind = L.clause or 'panic-frame'
             if L.kind == 'probe':
                 kind = 'vacuity-probe'
         elif L.kind == 'lib' and lib_site is None:
